@@ -29,6 +29,12 @@ func main() {
 		fmt.Fprintln(os.Stderr, "usage: vh <family> <report.json> [--replay file]")
 		os.Exit(2)
 	}
+	if os.Args[1] == "race-child" && len(os.Args) == 4 {
+		seed, _ := strconv.ParseUint(os.Args[3], 10, 64)
+		raceChild(os.Args[2], seed)
+
+		return
+	}
 	name, out := os.Args[1], os.Args[2]
 	f, ok := families[name]
 	if !ok {
